@@ -1,4 +1,5 @@
 import ColoVerif.Model.Transp1d
+import ColoVerif.Model.Transp1dLocal
 import Driver.Common
 /-
 Driver for C14: replays the harness' operations on the Transportation1d model.
@@ -11,6 +12,10 @@ Driver for C14: replays the harness' operations on the Transportation1d model.
   cert                              -> cert ok   when the model's plan passes `certOk` with the
                                        potentials computed here (Bellman-Ford on the residual
                                        difference constraints; untrusted search, trusted checker)
+  loc                               -> loc ok    when the positions returned by `run` on the sorted
+                                       instance pass `locCertOk` with the sink prices computed here
+                                       (closed formula: min of the left- and right-anchored chain
+                                       prices; untrusted computation, trusted checker)
 -/
 open ColoVerif.Transp1d Driver
 
@@ -57,6 +62,66 @@ def potentials (pb : Problem) (plan : Plan) : List Int × List Int :=
   let base := dist[t]!
   ((List.range n).map fun i => dist[i]! - base, (List.range m).map fun j => dist[n + j]! - base)
 
+/-! ### sink prices for `locCertOk` (untrusted) -/
+
+def bigInf : Int := 1000000000000000000000000000000
+
+def capInf (x : Int) : Int := if bigInf < x then bigInf else x
+
+/-- prices of the sinks of the sorted instance for the positions `p` -/
+def localPrices (sv : Solver) (p : List Int) : List Int :=
+  let n := sv.u.length
+  let m := sv.v.length
+  let srcs := List.range n
+  let unsat : Array Bool := (List.range m).toArray.map fun j =>
+    decide (fillP sv p j n < sv.D.getD (j + 1) 0 - sv.D.getD j 0)
+  let first : Array (Option Nat) := (List.range m).toArray.map fun j =>
+    srcs.find? fun i => decide (0 < ovP sv p i j)
+  let last : Array (Option Nat) := (List.range m).toArray.map fun j =>
+    srcs.reverse.find? fun i => decide (0 < ovP sv p i j)
+  let hiD (t : Nat) : Int := match first[t + 1]! with
+    | some k => cs sv k t - cs sv k (t + 1)
+    | none => bigInf
+  let loD (t : Nat) : Int := match last[t]! with
+    | some k => cs sv k t - cs sv k (t + 1)
+    | none => - bigInf
+  let U : Array Int := Id.run do
+    let mut a : Array Int := Array.replicate m bigInf
+    for j in [1:m] do
+      let base := if unsat[j - 1]! then 0 else a[j - 1]!
+      a := a.set! j (capInf (base + hiD (j - 1)))
+    return a
+  let V : Array Int := Id.run do
+    let mut a : Array Int := Array.replicate m bigInf
+    for r in [1:m] do
+      let j := m - 1 - r
+      let base := if unsat[j + 1]! then 0 else a[j + 1]!
+      a := a.set! j (capInf (base - loD j))
+    return a
+  if unsat.any id then
+    (List.range m).map fun j => if unsat[j]! then 0 else min U[j]! V[j]!
+  else
+    let W : Array Int := Id.run do
+      let mut a : Array Int := Array.replicate m 0
+      for j in [1:m] do
+        a := a.set! j (a[j - 1]! + hiD (j - 1))
+      return a
+    let mn := W.foldl min 0
+    (List.range m).map fun j => W[j]! - mn
+
+/-- `check(); sorter; convert; run` and the local certificate of the positions -/
+def locOp (pb : Problem) : String :=
+  let r : M Bool := do
+    check pb
+    let so ← mkSorter pb
+    let sv ← convert so pb
+    let p ← run sv
+    pure (locCertOk sv p (localPrices sv p))
+  match r with
+  | .ok true => "loc ok"
+  | .ok false => "loc FAIL"
+  | .error e => "loc " ++ showErr e
+
 def step (pb : Problem) : List String → Problem × List String
   | ["case", k] => (pb, ["case " ++ k])
   | "pb" :: n :: m :: rest =>
@@ -82,6 +147,7 @@ def step (pb : Problem) : List String → Problem × List String
       let (al, be) := potentials pb p
       (pb, [if certOk pb p al be then "cert ok" else "cert FAIL"])
     | .error e => (pb, ["cert " ++ showErr e])
+  | ["loc"] => (pb, [locOp pb])
   | [] => (pb, [])
   | ws => (pb, ["bad-op " ++ " ".intercalate ws])
 
